@@ -17,7 +17,7 @@
 // whole-blockchain part can be added as another line of parts.txt.
 // Main part phases: 1) every history of B batches over K batches, plain and
 // with every single GC(G)@point; 2) every pair of GC events (smaller alphabet,
-// fewer configurations); 3) longer histories over the first K3 batches.
+// fewer configurations); 3) longer histories over the first batches (see phases).
 package c11
 
 import (
@@ -814,14 +814,19 @@ func TestCheck(t *testing.T) {
 	family := os.Getenv("C11_FAMILY")
 	dropped := family == "dropped"
 	survey := os.Getenv("C11_SURVEY") != "" // development aid: count violation kinds instead of stopping
-	K := 8
-	B := vk.Pick(r, 4, 5)
-	K2 := 5 // alphabet of the second phase: two GC events per history
-	K3 := 4 // third phase: longer histories over the first batches
-	B3 := vk.Pick(r, 5, 6)
-	if dropped {
-		K, B, K2, K3 = vk.Pick(r, 8, 7), vk.Pick(r, 3, 4), 0, 0
+	// Phases {K batches, B blocks, GC events single/pairs}; every phase runs
+	// under all configurations (pairs: under cfgs2).
+	type phase struct {
+		K, B  int
+		Pairs bool
 	}
+	phases := vk.Pick(r,
+		[]phase{{8, 4, false}, {5, 4, true}, {4, 5, false}},
+		[]phase{{8, 4, false}, {7, 5, false}, {5, 5, true}, {4, 6, false}})
+	if dropped {
+		phases = vk.Pick(r, []phase{{8, 3, false}}, []phase{{7, 4, false}})
+	}
+	K := phases[0].K
 	persists := vk.Pick(r, []int{1, 2}, []int{1, 2, 3})
 	collapses := []int{10, 1, -1}
 	var cfgs, cfgs2 []runCfg
@@ -856,24 +861,16 @@ func TestCheck(t *testing.T) {
 		pairs  bool
 	}
 	var jobs []job
-	for _, c := range cfgs {
-		for k0 := 0; k0 < K; k0++ {
-			for k1 := 0; k1 < K; k1++ {
-				jobs = append(jobs, job{c, k0, k1, K, B, false})
-			}
+	for _, ph := range phases {
+		cc := cfgs
+		if ph.Pairs {
+			cc = cfgs2
 		}
-	}
-	for _, c := range cfgs2 {
-		for k0 := 0; k0 < K2; k0++ {
-			for k1 := 0; k1 < K2; k1++ {
-				jobs = append(jobs, job{c, k0, k1, K2, B, true})
-			}
-		}
-	}
-	for _, c := range cfgs {
-		for k0 := 0; k0 < K3; k0++ {
-			for k1 := 0; k1 < K3; k1++ {
-				jobs = append(jobs, job{c, k0, k1, K3, B3, false})
+		for _, c := range cc {
+			for k0 := 0; k0 < ph.K; k0++ {
+				for k1 := 0; k1 < ph.K; k1++ {
+					jobs = append(jobs, job{c, k0, k1, ph.K, ph.B, ph.Pairs})
+				}
 			}
 		}
 	}
@@ -998,19 +995,21 @@ func TestCheck(t *testing.T) {
 	for _, b := range alphabet[:K] {
 		al = append(al, b.Name)
 	}
+	maxB := 0
+	for _, ph := range phases {
+		maxB = max(maxB, ph.B)
+	}
 	transitions := total.blocks + total.dropped + total.persists + total.gcs
 	r.Finish(map[string]any{
 		"states":                                states.len(),
 		"transitions":                           int(transitions),
 		"traces_validated_against_impl":         int(cases),
-		"rule":                                  "every history of B batches over the first K batches of the alphabet (and of B3 batches over the first K3), in every configuration (mode/persist period/collapse depth or restart/applier), plus for mode gc every GC(G) event (G <= persisted height) at every point; a state = digest of the raw DataMPT content + configuration + height + collected-up-to",
+		"rule":                                  "every history of B batches over the first K batches of the alphabet (phases: K, B, single GC events or pairs), in every configuration (mode/persist period/collapse depth or restart/applier), plus for mode gc every GC(G) event (G <= persisted height) at every point; a state = digest of the raw DataMPT content + configuration + height + collected-up-to",
+		"phases_K_B_gcpairs":                    fmt.Sprint(phases),
 		"alphabet_batches_K":                    K,
-		"blocks_per_history_B":                  B,
-		"long_histories_phase_K":                K3,
-		"long_histories_phase_B":                B3,
+		"blocks_per_history_B_max":              maxB,
 		"alphabet":                              al,
 		"configurations":                        cs,
-		"two_gc_events_phase_alphabet_K":        K2,
 		"two_gc_events_phase_configs":           len(cfgs2),
 		"histories_run":                         int(histories),
 		"cases_run":                             int(cases),
